@@ -115,3 +115,24 @@ func pairContext(c *core.Ctx, f *corpus.Fam, p, s *corpus.Item, src string) {
 		}
 	}
 }
+
+// deepCases: nesting, chains and single tokens whose size grows with n (corpus.DeepPrograms), under both families, with
+// production pool blocks (the programs have thousands of tokens).
+func deepCases(c *core.Ctx) []srcCase {
+	ns := []int{40, 400}
+	if c.Thorough() {
+		ns = []int{40, 400, 3000}
+	}
+	var out []srcCase
+	for _, n := range ns {
+		for _, src := range corpus.DeepPrograms(n) {
+			for _, v := range []string{"7.4", "5.6"} {
+				cs := mkCase(src, parseVer(v), "deep nesting / long chain / long token, n="+itoa(n))
+				cs.Text = clipS(cs.Text, 120)
+				cs.Block = drive.ProdBlock
+				out = append(out, cs)
+			}
+		}
+	}
+	return out
+}
